@@ -14,6 +14,11 @@ import pkgutil
 
 
 def props():
+    return [r for r, _ in prop_objects()]
+
+
+def prop_objects():
+    """[(row, live descriptor)] sorted by row"""
     import ombott
     from ombott.common_helpers import HeaderProperty
     from ombott.response import http_date
@@ -49,8 +54,8 @@ def props():
                     wk = 'http_date' if same else 'other'
                 d = p.default
                 assert isinstance(d, (str, int)) and not isinstance(d, bool), d
-                rows.append((cls.__name__, an, p.name, rk, wk, isinstance(d, int), str(d)))
-    return sorted(rows)
+                rows.append(((cls.__name__, an, p.name, rk, wk, isinstance(d, int), str(d)), p))
+    return sorted(rows, key=lambda x: x[0])
 
 
 def fw_attrs():
